@@ -415,6 +415,14 @@ fn main() {
             let (late, late_bad) = alloc::late_frees();
             println!("{}", json!({"mode": "threads", "schedules": n, "runs": traces, "events": ev, "late_frees": late, "late_double_frees": late_bad, "build": build_flags()}));
         }
+        Some("policy") => {
+            // rows [thr, bytes, pn, pd, expected threshold] written by TLC from spec/Policy.tla
+            let inp = arg(&args, "--in").expect("--in");
+            let v: Value = serde_json::from_str(&std::fs::read_to_string(inp).expect("read rows")).expect("rows json");
+            let rows: Vec<Value> = v["rows"].as_array().cloned().unwrap_or_default();
+            let r = layout::policy_grid(&rows);
+            println!("{}", json!({"mode": "policy", "result": r, "build": build_flags()}));
+        }
         Some("ptr") => {
             // pointer tables: --in file with the JSON table printed by TLC from PtrSpec.tla
             let inp = arg(&args, "--in").expect("--in");
